@@ -191,8 +191,7 @@ package wal
 //@ -- contract of the post-commit step returned by createNextSegment for state s
 //@ -- and new tail seg: create the file, install writer and reader in s
 //@ func postCommit(s, seg)
-//@   requires[C13.file-created-after-commit] traced("call:types.MetaStore.CommitState")
-//@   requires[C03.no-file-ahead-of-metadata] traced("call:types.MetaStore.CommitState")
+//@   requires[C13.file-created-after-commit,C03.no-file-ahead-of-metadata] traced("call:types.MetaStore.CommitState")
 //@   requires s != nil && PendingTail(s) && smmax(s.segments) == seg.BaseIndex && SameSeg(seg, smget(s.segments, seg.BaseIndex))
 //@   assigns s.tail, s.segments, g_open
 //@   ensures[C03.post-wf] result == nil ==> WFS(s) && s.tail.last == 0 && s.tail.base == seg.BaseIndex && !s.tail.sealed
@@ -207,8 +206,7 @@ package wal
 //@   site after-call(stateTxn#1) requires[C03.pinv-at-commit] callresult._2 == nil ==> SInv(newS) && smnonempty(newS.segments) && unsealedSeg(smget(newS.segments, smmax(newS.segments)))
 //@   site atomic-store(s) requires[C10.published-after-commit] g_commits == old(g_commits) + 1
 //@   site atomic-store(s) requires[C03.published-wf] WFS(stored)
-//@   site atomic-store(finalizer) requires[C04.finalizer-after-commit] g_commits == old(g_commits) + 1
-//@   site atomic-store(finalizer) requires[C10.failed-commit-keeps-files] g_commits == old(g_commits) + 1
+//@   site atomic-store(finalizer) requires[C04.finalizer-after-commit,C10.failed-commit-keeps-files] g_commits == old(g_commits) + 1
 //@   ensures[C04.one-commit-per-txn] result == nil ==> g_commits == old(g_commits) + 1
 //@   ensures[C10.atomic] result != nil ==> g_commits == old(g_commits)
 //@   ensures[C10.published-only-on-success] result != nil ==> av(w.s) == old(av(w.s))
